@@ -30,6 +30,20 @@ let () =
                 | _ -> failwith "S")
       | _ -> failwith "decl" in
     (try
+      if toks <> [] && List.hd toks = "SW" then begin
+        (* SW <value> <clause>...   clause = c<v>:<marker>:<0|1> | d:<marker>:<0|1>  ->  the markers executed *)
+        match List.tl toks with
+        | v :: cls ->
+          let z_of_int n = if n = 0 then Z0 else if n > 0 then Zpos (pos_of_int n) else Zneg (pos_of_int (-n)) in
+          let clause t = match String.split_on_char ':' t with
+            | [k; m; f] ->
+              let sel = if k = "d" then None else Some (z_of_int (int_of_string (String.sub k 1 (String.length k - 1)))) in
+              ((sel, n_of_int (int_of_string m)), f = "1")
+            | _ -> failwith "clause" in
+          let r = switch_exec (List.map clause cls) (z_of_int (int_of_string v)) in
+          print_string ("SW " ^ String.concat " " (List.map (fun m -> string_of_int (int_of_n m)) r))
+        | [] -> failwith "SW"
+      end else
       let p = List.map decl toks in
       let vars = String.concat "," (List.map (fun v -> string_of_int (int_of_n v)) (var_names (emit_order p))) in
       let structs = List.filter_map (function
